@@ -61,6 +61,28 @@ CHECKS = {
         note="Scores that depend on WHICH maximum matching is returned (average overlap ratio) are not claimed "
              "permutation invariant, as in the statement (precision/recall/F only).",
         design="§5 C08"),
+    "C10": dict(
+        text="Lean 4 proofs over an inductive Harte grammar and string-level models of validate/split/join/encode that use "
+             "tables REGENERATED from chord.py on every run: recognize∘render = id and soundness (acceptance = "
+             "derivability), totality with InvalidChord as the only error for every string, encode range "
+             "(root/bass in 0..11, 12-long 0/1 bitmap containing the bass), sentinels, encode semantics against a "
+             "hand-transcribed specification of shorthands/degrees/reduction, join∘split preserves the encoding for "
+             "every permutation of the degree set; regex acceptance vs the grammar is tied by an exhaustive-to-depth "
+             "differential (2.99 M labels in the thorough tier) plus mutated strings.",
+        note="CHORD_RE itself is not translated: regex = grammar rests on the exhaustive differential and Python's re. "
+             "Known finding: validate_chord_label accepts a valid label followed by one newline.",
+        design="§5 C10"),
+    "C18": dict(
+        text="Lean 4 proofs for every multipitch input: total error = substitution + miss + false alarm, each >= 0, accuracy "
+             "<= min(P, R), the same for chroma, per-frame true positives <= min(#ref, #est) and are maximum matchings "
+             "of their criterion, chroma count >= raw count (circular distance <= absolute distance + monotonicity "
+             "of maximum matchings), nearest-frame resampling incl. out-of-range => empty frame; value correspondence "
+             "of metrics / compute_num_true_positives / resample_multipitch / compute_accuracy / compute_err_score; "
+             "identities searched on the real 14-tuple.",
+        note="Pitch is modelled in the log domain (MIDI numbers); log2 is exercised through the harness conversion "
+             "only. Known finding: metrics() skips resampling when np.allclose(est_time, ref_time), whose relative "
+             "tolerance reaches a whole frame for late time stamps.",
+        design="§5 C18"),
 }
 
 NOT_YET = "check not built yet (work in progress; see DESIGN.md §9)"
